@@ -361,6 +361,11 @@ fn shrink_violations(rep: &mut Report, surface: Surface, seed: u64, thorough: bo
 }
 
 pub fn run(p: &Params, rep: &mut Report) {
+    {
+        // loop bounds in the gaps of the other probes (300 .. 10^5)
+        let mut rng = p.rng(0x4C42);
+        super::ladder::loop_bounds_sweep(rep, &mut rng, if p.thorough { 12 } else { 3 }, p.seed);
+    }
     if p.shard == 8 {
         // depth instead of width: terms nested a few hundred (thousand) levels deep
         for d in if p.thorough { vec![64u32, 257, 1000, 3000] } else { vec![65u32, 256, 700 + (p.seed as u32 % 7) * 50] } {
@@ -369,7 +374,7 @@ pub fn run(p: &Params, rep: &mut Report) {
     }
     if p.shard == 7 {
         // operand and class counts beyond 2^10 (and, for one term, beyond 2^16)
-        for n in if p.thorough { vec![1100u32, 2100, 4200, 1300 + (p.seed as u32 * 37) % 1700] } else { vec![1100u32, 1030 + (p.seed as u32 * 37) % 900] } {
+        for n in if p.thorough { vec![1100u32, 2100, 4200, 1300 + (p.seed as u32 * 37) % 1700] } else { vec![1100u32, 301 + (p.seed as u32 * 397) % 1700] } {
             super::ladder::wide_union(rep, "C01", n, p.seed);
         }
         super::ladder::wide_tree(rep, "C01", 65_600, p.seed);
